@@ -50,6 +50,9 @@ def build_pool(tmp):
             d['spc'] = 0
         r = camx_u.materialize(d)
         add(tag, fmt, fmt, camx_u.encode(r), sd)
+    # a 2-D uamiv file whose grid header carries nz = 0 (usual for low-level emissions; read as one layer)
+    d = dict(camx_u.base_desc('uamiv'), name=camx_u.NAMES.index('EMISSIONS'), shape=[3, 2, 1], hdr_nz0=True)
+    add('emis', 'uamiv', 'uamiv', camx_u.encode(camx_u.materialize(d)))
     # ICARTT
     import PseudoNetCDF.testcase as tc
     add('ict', 'ffi1001', 'ffi1001', open(tc.icarttfiles_paths['ffi1001'], 'rb').read())
@@ -84,6 +87,13 @@ def build_pool(tmp):
     # files with a recognisable extension that no reader can open (detection fails part-way)
     for name in ('cut.humidity', 'cut.nc', 'cut.uamiv'):
         pool.append({'tag': name, 'fmt': 'none', 'path': put(name, b'abc'), 'ext': True, 'selfdesc': False, 'kw': {}})
+    # files for a reader family the USER defines during the history (event 'define:sonde'): the suffix names the
+    # base reader, the derived reader is registered later and would otherwise be tried first
+    sonde = b'SONDE v1\n3\n1.5 2.5 4.0\n'
+    pool.append({'tag': 'probe.sonde', 'fmt': 'sonde', 'path': put('probe.sonde', sonde), 'ext': True,
+                 'selfdesc': False, 'kw': {}})
+    pool.append({'tag': 'probe.sondeqc', 'fmt': 'sondeqc', 'path': put('probe.sondeqc', sonde), 'ext': True,
+                 'selfdesc': False, 'kw': {}})
     # a file no reader recognises (falls through to the last-resort reader or raises)
     add('junk', 'none', 'txt', b'this is not a model file\n' * 40, selfdesc=False)
     # one path whose CONTENT changes between opens
@@ -127,6 +137,32 @@ def do_open(entry, fmt=None):
         return {'reader': 'raise:' + type(e).__name__, 'dims': [], 'data': 0, 'nvars': 0}
 
 
+def define_sonde():
+    """what a user does to add a format: subclass PseudoNetCDFFile (the metaclass registers the class under its
+    name); a base reader with an isMine test and a derived reader that inherits the test"""
+    from PseudoNetCDF import PseudoNetCDFFile
+
+    class sonde(PseudoNetCDFFile):
+        scale = 1.
+
+        @classmethod
+        def isMine(cls, path, *args, **kwds):
+            try:
+                with open(path, 'rb') as fh:
+                    return fh.readline().strip() == b'SONDE v1'
+            except Exception:
+                return False
+
+        def __init__(self, path):
+            vals = np.array([float(x) for x in open(path).read().split()[3:]])
+            self.createDimension('level', vals.size)
+            self.createVariable('ozone', 'd', ('level',), values=vals * self.scale)
+
+    class sondeqc(sonde):
+        scale = 1000.
+    return sonde, sondeqc
+
+
 def events(pool):
     """history alphabet: an auto-detecting open of every pool file, plus opens with an explicitly named
     format (which must not influence later auto-detection either)"""
@@ -142,10 +178,13 @@ def events(pool):
     # registering again a reader that is registered already (documented to change nothing)
     for name in ('humidity', 'netcdf', 'uamiv'):
         ev.append([-1, 'register:' + name])
+    # the user defines NEW readers (legitimately changes what the two .sonde* files open as: such histories are
+    # judged against the history that contains only the definition)
+    ev.append([-1, 'define:sonde'])
     return ev
 
 
-REDUCED = ('avg.uamiv', 'kv.vertical_diffusivity', 'hum.humidity', 'ict.ffi1001', 'nc3.nc', 'io.ioapi', 'punch.bpch',
+REDUCED = ('probe.sonde', 'avg.uamiv', 'kv.vertical_diffusivity', 'hum.humidity', 'ict.ffi1001', 'nc3.nc', 'io.ioapi', 'punch.bpch',
            'ict_crlf.ffi1001', 'cut.humidity', 'cut.nc', 'cut.uamiv', 'kv_noext', 'nc3_noext', 'junk_noext',
            'shared<-uamiv', 'shared<-nc3')
 REDUCED_EXPLICIT = ('avg.uamiv', 'ict.ffi1001', 'hum.humidity', 'kv_noext', 'nc3_noext')
@@ -175,6 +214,9 @@ def child(hist, order, wfd):
     try:
         c0, n0 = registry_canon()
         for i, fmt in hist:
+            if i < 0 and fmt.startswith('define:'):
+                define_sonde()
+                continue
             if i < 0:
                 from PseudoNetCDF._getreader import registerreader, getreaderdict
                 name = fmt.split(':', 1)[1]
@@ -274,12 +316,23 @@ class Prop(core.Prop):
             shutil.rmtree(tmp, True)
 
 
+DEFINE = [-1, 'define:sonde']
+
+
+def defines(hist):
+    return any(i < 0 and f.startswith('define:') for i, f in hist)
+
+
 def baseline_obs():
-    """result of probing each file in a pristine process, one child per file"""
+    """result of probing each file in a pristine process, one child per file; the same after nothing but the
+    definition of the user's readers (key ('def', i)), with the registry that definition alone produces (key 'reg')"""
     base = {}
     for i in range(len(POOL)):
         r = run_history([], [i])
         base[i] = r['probes'][0][1] if r.get('probes') else {'reader': 'raise:child', 'dims': [], 'data': 0}
+        r = run_history([DEFINE], [i])
+        base['def', i] = r['probes'][0][1] if r.get('probes') else {'reader': 'raise:child', 'dims': [], 'data': 0}
+        base['reg'] = r.get('reg_after_hist')
     return base
 
 
@@ -292,13 +345,15 @@ def judge(hist, order, base, r):
     if r.get('error'):
         vs.append(viol('history-raises', ('history',), '%r after %r' % (r['error'], tags), **scope))
         return vs
-    if r['reg_after_hist'] != r['reg_initial']:
+    isdef = defines(hist)
+    scope['hist_define'] = isdef
+    if r['reg_after_hist'] != (base['reg'] if isdef else r['reg_initial']):
         vs.append(viol('registry-changed-by-open', ('registry',),
                        'after opening %r the reader registry went from %r to %r (first-occurrence hash, length)'
-                       % (tags, r['reg_initial'], r['reg_after_hist']), **scope))
+                       % (tags, base['reg'] if isdef else r['reg_initial'], r['reg_after_hist']), **scope))
     seen_before = []
     for i, obs in r['probes']:
-        b = base[i]
+        b = base['def', i] if isdef else base[i]
         if obs != b:
             vs.append(viol('detection-depends-on-history', ('probe', POOL[i]['fmt'],
                                                            'ext' if POOL[i]['ext'] else 'noext'),
